@@ -22,7 +22,7 @@ RULE = ("base queries (SQLAlchemy: select(Item), .where, .join(Item.owner), .out
         "backend, use again} and {import, use} in fresh processes for the nine names functions_ext defines plus "
         "controls; snapshots (class, SQL text, type) must be equal. Non-trivial: base is not the unfiltered query "
         "and the filter changes the result; distinct by (base, filter, instance)."
-        " SQLAlchemy: the number of JOINs in the FROM clause of apply(base, f) must not exceed the base's joins plus the to-one hops f navigates. Django bases include a restricting custom manager and a related manager; SQLAlchemy bases include joins on a relationship key that another model also has (Item.home / Owner.home).")
+        " SQLAlchemy: the number of JOINs in the FROM clause of apply(base, f) must not exceed the base's joins plus the to-one hops f navigates. Django bases include a restricting custom manager and a related manager; SQLAlchemy bases include joins on a relationship key that another model also has (Item.home / Owner.home), in both directions (base joined on Item.home, or on Owner.home reached through Item.owner).")
 ASSUMPTIONS = ["without an ORDER BY on the base the comparison is on multisets; with one it is on sequences",
                "SQLite is the only engine"]
 
@@ -44,6 +44,9 @@ def sa_bases(S):
         ("outerjoin-co-owner", "orm", lambda: sa.select(I).outerjoin(I.co_owner), False),
         ("legacy-outerjoin-co-owner", "legacy", lambda: S.session.query(I).outerjoin(I.co_owner), False),
         ("legacy-join-home", "legacy", lambda: S.session.query(I).join(I.home), False),
+        # joined on a relationship of ANOTHER model (Owner.home -> Org) whose key the root model also has (Item.home -> Region)
+        ("join-owner-ownerhome", "orm", lambda: sa.select(I).join(I.owner).outerjoin(O.home), False),
+        ("legacy-outerjoin-owner-ownerhome", "legacy", lambda: S.session.query(I).outerjoin(I.owner).outerjoin(O.home), False),
         ("join-owner-region", "orm", lambda: sa.select(I).join(I.owner).join(O.region), False),
         ("outerjoin-owner-region", "orm", lambda: sa.select(I).outerjoin(I.owner).outerjoin(O.region), False),
         ("join-owner-where", "orm", lambda: sa.select(I).join(I.owner).where(O.rank >= 0), False),
@@ -164,6 +167,9 @@ def check_case(case, fenced=True):
                     m == "Region" and p != ("home",) for p, m in rel.to_one_hops(t, "Item").items()):
                 stats["excluded_a8"] = stats.get("excluded_a8", 0) + 1
                 continue
+            if "ownerhome" in name and "A8" in known_ids("C04") and any(m == "Org" for m in rel.to_one_hops(t, "Item").values()):
+                stats["excluded_a8"] = stats.get("excluded_a8", 0) + 1
+                continue   # the base joins Org through Owner.home, the filter through Owner.org (A8)
             if "co-owner" in name and "A8" in known_ids("C04") and any(m == "Country" for m in rel.to_one_hops(t, "Item").values()):
                 stats["excluded_a8"] = stats.get("excluded_a8", 0) + 1
                 continue   # the base joins Country through Item.co_owner, the filter through Region.country (A8)
